@@ -304,15 +304,10 @@ impl<const N: u32> PxE2<{ N }> {
         Self::from_bits(u_z)
     }
 
-    pub const fn from_i32(mut i_a: i32) -> Self {
-        if i_a < -2_147_483_135 {
-            Self::from_bits(0x_8050_0000);
-        }
-
+    pub const fn from_i32(i_a: i32) -> Self {
         let sign = i_a.is_negative();
-        if sign {
-            i_a = -i_a;
-        }
+        // magnitude as u32: i32::MIN has no positive counterpart in i32
+        let i_a = i_a.unsigned_abs();
 
         let ui_a = if (N == 2) && (i_a > 0) {
             0x_4000_0000
@@ -326,7 +321,7 @@ impl<const N: u32> PxE2<{ N }> {
             }
             ui_a
         } else {
-            convert_u32_to_px2bits::<{ N }>(i_a as u32)
+            convert_u32_to_px2bits::<{ N }>(i_a)
         };
         Self::from_bits(u32_with_sign(ui_a, sign))
     }
